@@ -146,6 +146,58 @@ func randomCase(r *hx.Rand) Case {
 	return c
 }
 
+// nestedCase: two to three levels of asynchronous resolution below lists of 2..5 items and below
+// sibling object fields, every level through Batch / Go / a mix: the invocations below everything one
+// wave fulfilled must all be pending — and be delivered by one call per resolver — at the next idle point.
+func nestedCase(r *hx.Rand) Case {
+	c := Case{
+		Seed:   r.Uint64(),
+		PAsync: hx.Pick(r, []int{100, 100, 100, 85}),
+		PBatch: hx.Pick(r, []int{100, 100, 70, 50, 30, 0}),
+		PErr:   hx.Pick(r, []int{0, 0, 0, 5}),
+		PGate:  hx.Pick(r, []int{0, 50, 100}),
+		PPre:   hx.Pick(r, []int{0, 50, 100}),
+		RoundK: hx.Pick(r, []int{1, 2, 4}),
+		Procs:  hx.Pick(r, []int{1, 2, 4, 16}),
+		MinN:   2, MaxN: 5,
+	}
+	g := &gen{r: r}
+	var level func(depth int) []Sel
+	level = func(depth int) []Sel {
+		var out []Sel
+		for i, n := 0, r.Range(1, 2); i < n; i++ {
+			if depth <= 1 {
+				out = append(out, Sel{Name: "i", ID: g.nextID()})
+				continue
+			}
+			name := hx.Pick(r, []string{"o", "o", "l", "i"})
+			s := Sel{Name: name, ID: g.nextID()}
+			if name != "i" {
+				s.Sub = level(depth - 1)
+			}
+			out = append(out, s)
+		}
+		return out
+	}
+	depth := r.Range(2, 3)
+	if r.Chance(1, 2) {
+		// below lists
+		for i, n := 0, r.Range(1, 2); i < n; i++ {
+			c.Tree = append(c.Tree, Sel{Name: "l", ID: g.nextID(), Sub: level(depth)})
+		}
+	} else {
+		// below sibling object fields
+		for i, n := 0, r.Range(2, 4); i < n; i++ {
+			c.Tree = append(c.Tree, Sel{Name: hx.Pick(r, []string{"o", "o", "o", "p"}), ID: g.nextID(), Sub: level(depth)})
+		}
+	}
+	if r.Chance(1, 4) {
+		c.Tree = append(c.Tree, Sel{Name: "i", ID: g.nextID()})
+	}
+	c.Query = render(c.Op, c.Tree)
+	return c
+}
+
 // wsCase: the operation goes through ServeGraphQLWS; half of them are subscriptions with 1..3 events
 // whose executions share one apiRequest (with abandonment in between: a failing non-null field).
 func wsCase(r *hx.Rand) Case {
